@@ -155,8 +155,28 @@ func checkC12(c *Check) {
 	// 1b. the pipe is opened for reading only: a descriptor that is also a
 	// writer of the FIFO never observes end-of-stream
 	nopen := 0
+	// the functions of the ingester's package, plus the repository helpers
+	// they call statically (the open step may live in a shared package)
+	openFns := map[*ssa.Function]bool{}
 	for _, fn := range p.AllRepoFuncs() {
-		if FuncPkgPath(fn) != ModPath+"/ingesters/namedpipe" {
+		if FuncPkgPath(fn) == ModPath+"/ingesters/namedpipe" {
+			openFns[fn] = true
+		}
+	}
+	for depth := 0; depth < 2; depth++ {
+		for fn := range openFns {
+			for _, ci := range callsIn(fn) {
+				if sc := staticCallee(ci.Common()); sc != nil && InRepo(sc) && sc.Blocks != nil && p.InDaemon(sc) {
+					openFns[sc] = true
+					for _, af := range sc.AnonFuncs {
+						openFns[af] = true
+					}
+				}
+			}
+		}
+	}
+	for _, fn := range p.AllRepoFuncs() {
+		if !openFns[fn] {
 			continue
 		}
 		allInstrs(fn, func(in ssa.Instruction) {
